@@ -318,6 +318,23 @@ def _history(ctx, inj, idx):
                 inj.end()
                 return
             peer.paused = False
+    if rig.pipe.link_up and rig.state == "CONNECTED_SELECTED" and rng.random() < 0.4:
+        # the peer's last messages and, in the same segment, the frame that ends the session: they arrived in SELECTED and are
+        # handed over like all the others, while the application is still busy with the first of them
+        from checks.c04 import _header_only
+        ho = _header_only()
+        with peer.link_lock:
+            burst = bytearray()
+            for _ in range(rng.randint(3, 8)):
+                system = UNSOL_BASE + next(peer.unsol_seq)
+                s_, f_ = rng.choice(ho)
+                with peer.lock:
+                    peer.unsol_sent.append(system)
+                burst += wire.hsms_data(s_, f_, False, system, b"")
+            burst += wire.hsms_control(rng.choice([wire.SEPARATE_REQ, wire.DESELECT_REQ]), 0x7D000000 + idx)
+            rig.pipe.feed(bytes(burst))
+        ctx.count("session_ended_by_the_peer_directly_behind_its_last_messages")
+        rig.wait(lambda: _count_unsol(rig, peer) >= len(peer.unsol_sent), 5.0)
     rig.quiesce(3.0)
     sig, yields, events = inj.end()
     peer.stop = True
